@@ -550,7 +550,7 @@ def run(prog, pid, clauses):
 
     for o in out:
         if o["status"] == "refuted":
-            path = os.path.join(VERIF, "replays", pid, o["name"].replace(":", "_").replace("/", "_") + ".json")
+            path = os.path.join(os.environ.get("VERIF_OUT") or VERIF, "replays", pid, o["name"].replace(":", "_").replace("/", "_") + ".json")
             os.makedirs(os.path.dirname(path), exist_ok=True)
             with open(path, "w") as f:
                 json.dump(dict(obligation=o["name"], verifier_output=o["detail"],
